@@ -237,6 +237,22 @@ Definition trie_init : trie := mkTrie (repeat [] 8) false [].
 
 Definition sum64 (l : list N) : N := fold_left (fun a s => u64 (a + s)) l 0.
 
+(** What comes back from the short pipeline (encryption -> bmt -> store, or
+    bmt -> store) for a wrapped level: [PipeWriteArgs.Span] is the plaintext
+    span the writer put in; [PipeWriteArgs.Data[:8]] has been PROCESSED by the
+    stages — in the encrypted pipeline it is the ciphertext of the span.
+    [proc] is that processing seen as a function on the span value (identity
+    in the plain pipeline).  wrapFullLevel forwards [args.Span] to the parent
+    level: [sel = p_span].  The functions are parametric in [sel] so that the
+    dependence is explicit (see [C08_span_must_be_plaintext]). *)
+Record pargs := mkPargs { p_span : N; p_data8 : N }.
+Definition short_pipeline (proc : N -> N) (s : N) : pargs := mkPargs s (proc s).
+
+Section TrieWriter.
+Variable sel : pargs -> N.
+Variable proc : N -> N.
+
+
 (** writeToLevel on the levels from the written one upwards; [lvl] is the
     number of the first level of [ls].  Returns the new levels, the chunks
     emitted, and whether the trie became full (a wrap into level 8).
@@ -249,7 +265,7 @@ Fixpoint write_levels (branching : nat) (lvl : nat) (ls : list (list N)) (sp : N
       let l' := l ++ [sp] in
       if Nat.eqb (length l') branching then
         let s := sum64 l' in
-        match write_levels branching (S lvl) up s with
+        match write_levels branching (S lvl) up (sel (short_pipeline proc s)) with
         | Ok (up', em, fl) => Ok ([] :: up', (s, N.of_nat (length l')) :: em, fl || Nat.eqb (S lvl) 8)
         | Err => Err | Panic => Panic | Hang => Hang
         end
@@ -270,7 +286,7 @@ Definition trie_write (branching : nat) (t : trie) (sp : N) : res trie :=
 Definition wrap_level (branching lvl : nat) (l : list N) (up : list (list N))
   : res (list (list N) * list (N * N) * bool) :=
   let s := sum64 l in
-  match write_levels branching (S lvl) up s with
+  match write_levels branching (S lvl) up (sel (short_pipeline proc s)) with
   | Ok (up', em, fl) => Ok (up', (s, N.of_nat (length l)) :: em, fl || Nat.eqb (S lvl) 8)
   | Err => Err | Panic => Panic | Hang => Hang
   end.
@@ -343,6 +359,8 @@ Definition trie_run (branching : nat) (spans : list N) : res (N * list (N * N)) 
       end
   | Err => Err | Panic => Panic | Hang => Hang
   end.
+
+End TrieWriter.
 
 (** the leaf spans the feeder produces for a file of [size] bytes:
     full chunks then the remainder; the empty file is one chunk of span 0 *)
